@@ -117,11 +117,7 @@ func (fx *FnCtx) lockOrder(st *State, cls string) {
 	}
 }
 
-func (fx *FnCtx) entryLockArr(key string) string {
-	name := fmt.Sprintf("H0_%s", sanitize(key))
-	fx.sol.DeclareConst(name, "(Array Int Int)")
-	return name
-}
+func (fx *FnCtx) entryLockArr(key string) string { return zeroLocks }
 
 // declared lock order (lower level acquired first); see DESIGN.md C18
 var lockLevels = map[string]int{
